@@ -569,7 +569,56 @@ func (c *Client) BlockSearch(
 	page, perPage *int,
 	orderBy string,
 ) (*ctypes.ResultBlockSearch, error) {
-	return c.next.BlockSearch(ctx, query, page, perPage, orderBy)
+	res, err := c.next.BlockSearch(ctx, query, page, perPage, orderBy)
+	if err != nil {
+		return nil, err
+	}
+
+	// Verify every returned block against the trusted header of its height,
+	// exactly as Block does. (That the list is complete cannot be verified.)
+	for i, b := range res.Blocks {
+		if b == nil {
+			return nil, fmt.Errorf("nil block %d", i)
+		}
+		if err := c.verifyBlock(ctx, b); err != nil {
+			return nil, fmt.Errorf("block %d: %w", i, err)
+		}
+	}
+
+	return res, nil
+}
+
+// verifyBlock validates a block together with its block ID and compares them
+// with the trusted light block of the block's height.
+func (c *Client) verifyBlock(ctx context.Context, res *ctypes.ResultBlock) error {
+	// Validate res.
+	if err := res.BlockID.ValidateBasic(); err != nil {
+		return err
+	}
+	if err := res.Block.ValidateBasic(); err != nil {
+		return err
+	}
+	if bmH, bH := res.BlockID.Hash, res.Block.Hash(); !bytes.Equal(bmH, bH) {
+		return fmt.Errorf("blockID %X does not match with block %X",
+			bmH, bH)
+	}
+
+	// Update the light client if we're behind.
+	l, err := c.updateLightClientIfNeededTo(ctx, &res.Block.Height)
+	if err != nil {
+		return err
+	}
+
+	// Verify block.
+	if bH, tH := res.Block.Hash(), l.Hash(); !bytes.Equal(bH, tH) {
+		return fmt.Errorf("block header %X does not match with trusted header %X",
+			bH, tH)
+	}
+	if !res.BlockID.Equals(l.Commit.BlockID) {
+		return fmt.Errorf("blockID %v does not match with trusted blockID %v",
+			res.BlockID, l.Commit.BlockID)
+	}
+	return c.verifyLastCommit(ctx, res.Block)
 }
 
 // Validators fetches and verifies validators.
